@@ -1282,3 +1282,10 @@ Proof.
   rewrite forallb_forall in H. specialize (H l2 H2).
   apply andb_true_iff in H as [Ha Hb]. destruct soft; apply Bool.eqb_prop; assumption.
 Qed.
+
+(* ------------------------------------------------------------------ a refused OPEN changes nothing *)
+Theorem refused_open_unchanged soft o s : hnd s <> HClosed -> o = OpOpenO \/ o = OpOpenA \/ o = OpOpenI ->
+  step soft o s = ([1; tf_err_FILE_ALREADY_OPEN], s).
+Proof.
+  intros Hh [Ho | [Ho | Ho]]; subst o; unfold step; destruct (hnd s); try reflexivity; contradiction.
+Qed.
